@@ -51,11 +51,15 @@ class MultivariateNormal(TMultivariateNormal, Distribution):
                 cs2 = covariance_matrix.size(-2)
                 if not (ms == cs1 and ms == cs2):
                     raise ValueError(f"Wrong shapes in {self._repr_sizes(mean, covariance_matrix)}")
+            # mean and covariance may each lack batch dimensions of the other (the dense branch broadcasts them as well)
+            batch_shape = torch.broadcast_shapes(mean.shape[:-1], covariance_matrix.shape[:-2])
+            if mean.dim() > 0 and covariance_matrix.dim() > 1:
+                mean = mean.expand(*batch_shape, mean.size(-1))
+                covariance_matrix = covariance_matrix.expand(*batch_shape, *covariance_matrix.shape[-2:])
             self.loc = mean
             self._covar = covariance_matrix
             self.__unbroadcasted_scale_tril = None
             self._validate_args = validate_args
-            batch_shape = torch.broadcast_shapes(self.loc.shape[:-1], covariance_matrix.shape[:-2])
 
             event_shape = self.loc.shape[-1:]
 
